@@ -1557,7 +1557,13 @@ func (ex *Exec) evalClauseVal2(st *State, cl *Clause, old *State, pos token.Pos,
 	ex.specDepth++
 	saved := ex.curClause
 	ex.curClause = cl.Kind + " " + cl.Text
+	// in a postcondition a parameter denotes the value the caller passed (Go parameters are assignable
+	// locals; the caller only ever sees the entry value, and that is what the clause is instantiated with
+	// at call sites)
+	savedPE := ex.paramsAtEntry
+	ex.paramsAtEntry = cl.Kind == "ensures" && results != nil && ex.contract != nil && ex.contract.Frag == "" && old != nil
 	v := ex.eval(st, cl.Expr, sc)
+	ex.paramsAtEntry = savedPE
 	ex.curClause = saved
 	ex.specDepth--
 	return v
